@@ -4,6 +4,8 @@
   replayable bytes (`SpecReplay.lean`).
 -/
 import PdshVerif.Cbuf.Replay
+import PdshVerif.Cbuf.Wrapped
+import PdshVerif.Cbuf.ReplayLine
 
 namespace PdshVerif.Cbuf
 
@@ -14,6 +16,8 @@ inductive OpR where
   | peekToFd (len : Int) (cap : Nat)
   | readToFd (len : Int) (cap : Nat)
   | replayToFd (len : Int) (cap : Nat)
+  | replayLine (len lines : Int)
+  | rewindLine (len lines : Int)
   deriving Repr
 
 def stepMR (c : Cbuf) (op : OpR) (pol : Policy := chunkPolicy) : Out × Cbuf :=
@@ -24,6 +28,8 @@ def stepMR (c : Cbuf) (op : OpR) (pol : Policy := chunkPolicy) : Out × Cbuf :=
   | .peekToFd len cap => let (r, bs) := peekToFd c len cap; ({ ret := r, bytes := some bs }, c)
   | .readToFd len cap => let (r, bs, c') := readToFd c len cap; ({ ret := r, bytes := some bs }, c')
   | .replayToFd len cap => let (r, bs) := replayToFd c len cap; ({ ret := r, bytes := some bs }, c)
+  | .replayLine len lines => let (r, o) := replayLine c len lines; ({ ret := r, bytes := o }, c)
+  | .rewindLine len lines => let (r, c') := rewindLine c len lines; ({ ret := r }, c')
 
 /-- the line `cbuf_write_line` appends for the string `s` -/
 def lineOf (s : List UInt8) : List UInt8 :=
@@ -45,15 +51,28 @@ def histAfterBase (r : Spec.RFifo) (op : Op) (o : Out) (f' : Spec.Fifo) : List U
   | .optSet _ => r.hist
   | .flush => []
 
+/-- the `wrapped` flag under an operation of the base set: a writing operation sets it as soon as
+    history + unread + physically stored bytes exceed the capacity; flushing clears it -/
+def wrappedAfterBase (r : Spec.RFifo) (op : Op) (o : Out) (f' : Spec.Fifo) : Bool :=
+  match op with
+  | .write _ => Spec.wrappedAfterWrite r o.ret.toNat f'
+  | .writeFromFd _ _ _ => Spec.wrappedAfterWrite r o.ret.toNat f'
+  | .writeLine s => Spec.wrappedAfterWrite r (if o.ret < 0 then 0 else min (lineOf s).length f'.size) f'
+  | .flush => false
+  | _ => r.wrapped
+
 def stepSR (r : Spec.RFifo) (op : OpR) (implRet : Int) (implSize : Nat) : Option (Out × Spec.RFifo) :=
   match op with
   | .base op =>
-    (stepS r.f op implRet implSize).map fun (o, f') => (o, { f := f', hist := histAfterBase r op o f' })
+    (stepS r.f op implRet implSize).map fun (o, f') =>
+      (o, { f := f', hist := histAfterBase r op o f', wrapped := wrappedAfterBase r op o f' })
   | .replay len => let (n, bs) := Spec.replay r len; some ({ ret := n, bytes := some bs }, r)
   | .rewind len => let (n, r') := Spec.rewind r len; some ({ ret := n }, r')
   | .peekToFd len cap => let (n, bs) := Spec.peekToFd r len cap; some ({ ret := n, bytes := some bs }, r)
   | .readToFd len cap => let (n, bs, r') := Spec.readToFd r len cap; some ({ ret := n, bytes := some bs }, r')
   | .replayToFd len cap => let (n, bs) := Spec.replayToFd r len cap; some ({ ret := n, bytes := some bs }, r)
+  | .replayLine len lines => let (n, o) := Spec.replayLine r len lines; some ({ ret := n, bytes := o }, r)
+  | .rewindLine len lines => let (n, r') := Spec.rewindLine r len lines; some ({ ret := n }, r')
 
 /-! ### the history component under the base operations -/
 
@@ -155,7 +174,7 @@ theorem hist_step_base {c : Cbuf} (hi : Inv c) (op : Op) (pol : Policy := chunkP
   cases op with
   | write bs => exact hist_write hi hi' _ (write_whole hi bs pol)
   | writeFromFd len av eof => exact hist_write hi hi' _ (writeFromFd_whole hi len av eof pol)
-  | writeLine s => exact hist_write hi hi' _ (writeLine_refines hi s pol).2.2
+  | writeLine s => exact hist_write hi hi' _ (writeLine_refines hi s pol).2.2.1
   | read len => exact hist_consume hi hi' (consume_read c len).1 (consume_read c len).2
   | drop len => exact hist_consume hi hi' (consume_drop c len).1 (consume_drop c len).2
   | readLine len lines => exact hist_consume hi hi' (consume_readLine c len lines).1 (consume_readLine c len lines).2
@@ -164,6 +183,59 @@ theorem hist_step_base {c : Cbuf} (hi : Inv c) (op : Op) (pol : Policy := chunkP
   | peekLine len lines => rfl
   | flush => exact hist_flush c
   | optSet v => exact hist_optSet c v
+
+/-! ### the flag component under the base operations -/
+
+theorem gotWrap_read (c : Cbuf) (len : Int) : (read c len).2.2.gotWrap = c.gotWrap := by
+  unfold read
+  split
+  · rfl
+  · split
+    · rfl
+    · simp only; split <;> rfl
+
+theorem gotWrap_drop (c : Cbuf) (len : Int) : (drop c len).2.gotWrap = c.gotWrap := by
+  unfold drop
+  split
+  · rfl
+  · split
+    · rfl
+    · simp only; split <;> rfl
+
+theorem gotWrap_readLine (c : Cbuf) (len lines : Int) : (readLine c len lines).2.2.gotWrap = c.gotWrap := by
+  unfold readLine
+  split
+  · rfl
+  · split
+    · rfl
+    · simp only; split <;> rfl
+
+theorem gotWrap_dropLine (c : Cbuf) (len lines : Int) : (dropLine c len lines).2.gotWrap = c.gotWrap := by
+  unfold dropLine
+  split
+  · rfl
+  · split
+    · rfl
+    · simp only; split <;> rfl
+
+theorem gotWrap_optSet (c : Cbuf) (v : Nat) : (optSet c v).2.gotWrap = c.gotWrap := by
+  unfold optSet
+  split <;> rfl
+
+theorem wrapped_step_base {c : Cbuf} (hi : Inv c) (op : Op) (pol : Policy := chunkPolicy) [Admissible pol] :
+    (stepM c op pol).2.gotWrap = wrappedAfterBase (absR c) op (stepM c op pol).1 (abs (stepM c op pol).2) := by
+  cases op with
+  | write bs => exact write_gotWrap hi bs pol
+  | writeFromFd len av eof => exact writeFromFd_gotWrap hi len av eof pol
+  | writeLine s => exact writeLine_gotWrap hi s pol
+  | read len => exact gotWrap_read c len
+  | drop len => exact gotWrap_drop c len
+  | readLine len lines => exact gotWrap_readLine c len lines
+  | dropLine len lines => exact gotWrap_dropLine c len lines
+  | peek len => rfl
+  | peekLine len lines => rfl
+  | flush => rfl
+  | optSet v => exact gotWrap_optSet c v
 
 /-! ### step-wise and history refinement -/
 
@@ -176,7 +248,7 @@ theorem stepR_refines {c : Cbuf} (hi : Inv c) (op : OpR) (pol : Policy := chunkP
     obtain ⟨h1, h2⟩ := step_refines hi op pol
     refine ⟨?_, h2⟩
     simp only [stepSR, stepMR, absR_f, h1, Option.map_some]
-    rw [← hist_step_base hi op pol]
+    rw [← hist_step_base hi op pol, ← wrapped_step_base hi op pol]
     rfl
   | replay len =>
     simp only [stepSR, stepMR, ← replay_refines hi len]
@@ -195,6 +267,13 @@ theorem stepR_refines {c : Cbuf} (hi : Inv c) (op : OpR) (pol : Policy := chunkP
   | replayToFd len cap =>
     simp only [stepSR, stepMR, ← replayToFd_refines hi len cap]
     exact ⟨trivial, hi⟩
+  | replayLine len lines =>
+    simp only [stepSR, stepMR, ← replayLine_refines hi len lines]
+    exact ⟨trivial, hi⟩
+  | rewindLine len lines =>
+    obtain ⟨h1, h2, h3⟩ := rewindLine_refines hi len lines
+    simp only [stepSR, stepMR]
+    exact ⟨by rw [← h1, ← h2], h3⟩
 
 def runMR (c : Cbuf) (ops : List OpR) (pol : Policy := chunkPolicy) : List Out × Cbuf :=
   match ops with
